@@ -260,6 +260,9 @@ func NewConsumerBalancer(balance ConsumerBalancerBalance, members []kmsg.JoinGro
 			b.topics[topic] = struct{}{}
 		}
 		sort.Strings(meta.Topics)
+		// A subscription that lists a topic twice must count once: the
+		// balancers size and compare subscriptions by length.
+		meta.Topics = slices.Compact(meta.Topics)
 	}
 
 	return b, nil
